@@ -42,6 +42,11 @@ class Stop(Exception):
     """Run ended (budget, fatal, end of driver)."""
 
 
+class OutOfDomain(Exception):
+    """The run reached a situation whose outcome the manual does not define; the rest of
+    the observed log is not judged."""
+
+
 class Automaton:
     """Lazy subset automaton over the rules active in one (start condition, bol) pair."""
 
@@ -304,6 +309,9 @@ class Model:
             self.emit(["Z"])
         except Stop:
             pass
+        except OutOfDomain as e:
+            self.f("out_of_domain:" + str(e))
+            return self.out
         if self.obs is not None and len(self.obs) > len(self.out):
             raise Divergence(len(self.out), None, self.obs[len(self.out)],
                              "observed log continues after the model stopped")
@@ -556,6 +564,9 @@ class Model:
             if c == 10:
                 self.ln_add(-1)
         self.f("yyunput", len(data))
+        self.debt = getattr(self, "debt", 0) + len(data)
+        if self.debt > 2000:
+            raise OutOfDomain("pushback_volume")
 
     def do_input(self, n):
         for _ in range(n):
@@ -624,9 +635,8 @@ class Model:
         None to continue scanning."""
         if self.more_pending:
             # yymore() immediately before end of input: the manual does not say what
-            # happens to the pending text; generators avoid it
-            self.more_pending = False
-            self.notes.append("yymore at eof")
+            # happens to the pending text
+            raise OutOfDomain("yymore_at_eof")
         self.f("eof")
         if self.cur().fresh:
             self.f("eof_empty_source")
